@@ -156,6 +156,22 @@ StepRules(st, self, types, cache) ==
               /\ stayAfter => ((Dest("PauseResponder", pre.status) # "INV" => RespPausedView(post)) /\ TrOf(st.tr, "resume") = << >> /\ reply.paused)
               /\ post.limit = script.limit
         THEN {} ELSE {"C08.resumeRule"})
+  (* ---------------- C03 (manager level): a responder awaiting finalization is released only by an update that no longer requires it ---------------- *)
+  \cup (IF ((k = "UpdateValidation" \/ (isReqStim /\ m.kind = "Restart" /\ valOK)) /\ has /\ ~amInit /\ pre.status = "Finalizing" /\ script.accepted /\ ~script.err /\ script.reqFin)
+           => (post.status = "Finalizing" /\ T.postView.rpView /\ (reply.kind # "none" => reply.paused))
+        THEN {} ELSE {"C03.finalizingHolds"})
+  \cup (IF (k = "UpdateValidation" /\ has /\ ~amInit /\ pre.status = "Finalizing" /\ script.accepted /\ ~script.reqFin /\ ~script.force
+             /\ ~(script.limit # 0 /\ (IF pull THEN pre.queued ELSE pre.received) >= script.limit) /\ st.ret = "nil")
+           => (post.status = "Completed" /\ reply.kind = "Complete" /\ ~reply.paused)
+        THEN {} ELSE {"C03.finalizingRelease"})
+  \cup (IF (k = "OnChannelCompleted" /\ has /\ ~amInit /\ s.args.err = "" /\ s.sendFail = << >> /\ pre.status \in {"Ongoing","Queued"})
+           => (IF pre.reqFin THEN post.status = "Finalizing" /\ Has(sends, LAMBDA n : n.msg.kind = "Complete" /\ n.msg.paused)
+                             ELSE post.status = "Completed" /\ Has(sends, LAMBDA n : n.msg.kind = "Complete" /\ ~n.msg.paused))
+        THEN {} ELSE {"C03.responderCompletion"})
+  \cup (IF (isRespStim /\ m.kind = "Complete" /\ has /\ amInit /\ ~term /\ pre.status \in {"Ongoing","TransferFinished"})
+           => (IF m.paused THEN post.status \in {"ResponderFinalizing","ResponderFinalizingTransferFinished"}
+                          ELSE (IF pre.status = "TransferFinished" THEN post.status = "Completed" ELSE post.status = "ResponderCompleted"))
+        THEN {} ELSE {"C03.completeMessage"})
   (* ---------------- C09 (manager level) ---------------- *)
   \cup (IF (k = "Close" /\ has /\ ~term)
            => /\ st.ret = "nil" /\ Len(TrOf(st.tr, "close")) = 1
